@@ -62,4 +62,23 @@ def prunedListKids (L : Lexer) (T : Tables) (strict : Bool) (parentName : String
         here ++ prunedListKids L T strict parentName cs
 end
 
+mutual
+/-- the subtrees `prune` discards, each in the state it has at the moment it is discarded, with the reason -/
+def removedT (L : Lexer) (T : Tables) (strict : Bool) : Tree → List (Tree × Reason)
+  | .mk i n c tl p a e ns cs =>
+      if n = "metadata" then []
+      else if (T.ruleOf n).isNone then [(.mk i n c tl p a e ns cs, .unknown)]
+      else removedKids L T strict n cs
+def removedKids (L : Lexer) (T : Tables) (strict : Bool) (parentName : String) : List Tree → List (Tree × Reason)
+  | [] => []
+  | c :: cs =>
+      if !(childAllowed T parentName c.name) then (c, .notAllowed) :: removedKids L T strict parentName cs
+      else
+        (match (pruneT L T strict c).1 with
+         | none => removedT L T strict c
+         | some c' => removedT L T strict c ++
+             (if strict && !(collectNodeT L T c').isEmpty then [(c', .invalid)] else []))
+        ++ removedKids L T strict parentName cs
+end
+
 end Metapype
